@@ -26,10 +26,13 @@ def fixed_docs():
     ]
 
 
+NSMAP = {"p": "urn:u", "q": "urn:v"}
+
+
 def make_docs(rng, n_random):
     docs = fixed_docs()
-    for _ in range(n_random):
-        docs.append(xdm.random_doc(rng, maxnodes=rng.choice([6, 9, 12, 14])))
+    for k in range(n_random):
+        docs.append(xdm.random_doc(rng, maxnodes=rng.choice([6, 9, 12, 14]), ns=(k % 3 == 2)))
     # unique ID values
     for t in docs:
         k = [0]
@@ -139,7 +142,8 @@ def build_cases(rng, tier):
             ids = sorted(rng.sample(range(1, n + 1), min(n, rng.randint(0, 3))))
             vs["e"] = {"t": "ns", "v": [[d + 1, i, 0] for i in ids]}
             vt["e"] = "ns"
-        g = xpgen.Gen(rng, vars_=vt)
+        has_ns = any(u for u in flats[d]["uri"])
+        g = xpgen.Gen(rng, vars_=vt, nsmap=NSMAP if has_ns else None)
         e = g.any(rng.choice([1, 2, 2, 3]))
         size = rng.randint(1, 4)
         cases.append((d + 1, rng.randint(1, n), rng.randint(1, size), size, e, vs))
@@ -192,7 +196,7 @@ def run_cases(docs, flats, cases, wd, kind="native", mode="eval", tag="c02", fla
             f.write(json.dumps(head) + "\n")
             for k, (d, ctx, pos, size, e, vs) in enumerate(ch):
                 f.write(json.dumps({"id": k, "mode": mode, "doc": d, "ctx": ctx, "pos": pos, "size": size,
-                                    "text": e if isinstance(e, str) else xpgen.render(e), "vars": vs}) + "\n")
+                                    "text": e if isinstance(e, str) else xpgen.render(e), "vars": vs, "ns": NSMAP}) + "\n")
         rp = os.path.join(wd, "%s-res-%d.ndjson" % (tag, s))
         procs.append((s, ch, rp, subprocess.Popen([exe, cp], stdout=open(rp, "w"), stderr=subprocess.PIPE, env=dict(os.environ, ASAN_OPTIONS="detect_leaks=0"))))
     events, crashes = [], []
@@ -219,6 +223,7 @@ def run_cases(docs, flats, cases, wd, kind="native", mode="eval", tag="c02", fla
                 if mode == "eval":
                     toks = xplex.lex(text)
                     ev["toks"] = toks or []; ev["lexok"] = toks is not None
+            ev["nsmap"] = [{"p": xdm.cps(k_), "u": xdm.cps(v_)} for k_, v_ in sorted(NSMAP.items())]
             r = res[k]
             for f in ("error", "res", "matched"):
                 if f in r:
